@@ -9,7 +9,8 @@ import Mathlib.Algebra.Group.Defs
 Proved:
 * `tensordot_blocks` — for every chunking of the contracted axis the per-block partial contractions add up to
   the full contraction `Σ_l f l` (any additive monoid; `f l = a[…l…] * b[…l…]`), `tensordot_blocks₂` for two
-  contracted axes, `matmul_blocks` as the matrix instance, and `contraction_tree_sum` (the final `.sum(axis)` done
+  contracted axes, `einsum_blocks` for ANY number of contracted indices each with its own chunking (einsum's `contract_inds`),
+  `matmul_blocks` as the matrix instance, and `contraction_tree_sum` (the final `.sum(axis)` done
   as a K1 tree with any `split_every`/depth gives the same value; integers);
 * the `tsqr` stacking plan: `stackGroups_flatten` (the groups are consecutive runs of the R-factor blocks, in
   order, nothing lost or duplicated, sizes `min(chunk, ncols)`), `stackGroups_nonempty`, `cumsumBlocks_spec`
@@ -68,6 +69,24 @@ theorem tensordot_blocks₂ (f : Nat → Nat → R) (cs₁ cs₂ : List Nat) :
 theorem tensordot_chunking_irrelevant (f : Nat → R) (cs cs' : List Nat) (h : cs.sum = cs'.sum) :
     blockSum f cs = blockSum f cs' := by
   rw [tensordot_blocks, tensordot_blocks, h]
+
+/-- **einsum_blocks**: any number of contracted indices, each with its own chunking: the per-block partial contractions
+    over the product grid of blocks add up to the full contraction (einsum's `contract_inds`, tensordot with several
+    axes); output indices are pointwise (they parametrise `f`). -/
+theorem einsum_blocks : ∀ (css : List (List Nat)) (f : List Nat → R),
+    blockSumOver css f = sumOver (css.map List.sum) f
+  | [], _ => rfl
+  | cs :: css, f => by
+    simp only [blockSumOver, List.map_cons, sumOver]
+    rw [tensordot_blocks]
+    congr 1
+    funext i
+    exact einsum_blocks css _
+
+/-- … hence independent of how every contracted index is chunked -/
+theorem einsum_chunking_irrelevant (css css' : List (List Nat)) (f : List Nat → R)
+    (h : css.map List.sum = css'.map List.sum) : blockSumOver css f = blockSumOver css' f := by
+  rw [einsum_blocks, einsum_blocks, h]
 
 end contraction
 
@@ -325,6 +344,10 @@ example (A : Fin 3 → Matrix (Fin 2) (Fin 2) Int) :
   tsqr_n_blocks A (fun _ => 1) A 1 (stackRows A) (by simp) (by simp)
 
 end tsqr_n
+/-- 'ij,jk,k->i'-like contraction over (j, k) with j chunked (2, 1) and k chunked (1, 0, 2): same value as unchunked -/
+example : blockSumOver [[2, 1], [1, 0, 2]] (fun ix => ((ix.getD 0 0 + 1) * (ix.getD 1 0 + 2) : Int)) = 54 ∧
+    sumOver [3, 3] (fun ix => ((ix.getD 0 0 + 1) * (ix.getD 1 0 + 2) : Int)) = 54 := by decide
+
 /-- non-vacuity: chunks (3,1,2) of a length-6 axis -/
 example : blockTerms (fun l => (l : Int) * 2) 0 [3, 1, 2] = [6, 6, 18] ∧ sumTo 6 (fun l => (l : Int) * 2) = 30 := by
   decide
